@@ -1,164 +1,356 @@
 /*
  * C11 - tree iterators visit in the promised order, restore the tree, and free
- * safely (librfn/bintree.c; the file is not part of librfn.a, it is compiled
- * here directly).
+ * safely (librfn/bintree.c; the file is not part of librfn.a, the driver
+ * compiles it as an object of its own, `lib=['bintree.c']`, so nothing of the
+ * harness shares a translation unit with it).
  *
- * Bounded-exhaustive enumeration (engine C of DESIGN.md):
+ * Bounded-exhaustive enumeration (engine C of DESIGN.md), five passes:
  *
- *  - EVERY binary tree shape with 0..N nodes (Catalan unranking, so the set of
- *    shapes is known to be complete and a hash set confirms they are pairwise
- *    distinct), built from the shape description into a byte arena;
- *  - on every shape: the in-order / pre-order / post-order iterators run to
- *    completion, compared with (a) a recursive traversal of the harness's own
- *    shape arrays and (b) librfn's bintree_traverse_*; the byte image of the
- *    whole arena must be identical before and after; for small shapes also
- *    "take j nodes, then bintree_iterate_complete" for every j, and every node
- *    as the root of the sub-operation;
- *  - bintree_free / bintree_free_left / bintree_free_right with a logging
- *    deallocator: every node of the subtree exactly once, nothing else,
- *    children before parents, parent link NULL afterwards. Main pass: a
- *    deallocated node is filled with an odd pointer into an inaccessible page
- *    (following it faults, a store into it is seen afterwards). Guard pass
- *    (small shapes): every node sits at the end of its own page and the page is
- *    revoked (PROT_NONE) by the deallocator, so ANY later access faults;
- *  - two arena layouts: 8-byte aligned nodes and nodes at addresses == 2 mod 4
- *    or 0 mod 4 with stride 18 (the quantifier only promises 2-byte alignment;
- *    the post-order iterator tags the low bit of left pointers);
- *  - list iterator against bintree_traverse_list on left- and right-leaning
- *    spines of length 1..12 (1..32 thorough), elements leaves or inner nodes.
+ *  main   EVERY binary tree shape with 0..N nodes (Catalan unranking; a hash set
+ *         confirms the shapes are pairwise distinct), built into a byte arena.
+ *         Iterators in/pre/post run to completion (or j nodes + iterate_complete)
+ *         against an independent reference traversal AND librfn's recursive
+ *         traversal; every link must have its original value afterwards.
+ *         bintree_free / _left / _right with a logging deallocator: exactly once,
+ *         children first, parent link cleared, deallocated nodes poisoned.
+ *         Layouts: node stride sizeof(bintree_node_t)+8 (8-aligned, "a8") and
+ *         sizeof+2 (addresses 2 mod 4 / 0 mod 4, "m2"); node placement in memory
+ *         ascending with the node id, reversed ("r") and permuted ("p").
+ *  guard  (small shapes) every node at the end of a page of its own, revoked by
+ *         the deallocator: ANY later access faults.
+ *  deep   a fixed family of degenerate and bushy shapes (left/right spine, two
+ *         zig-zags, three combs, heap-shaped full tree, spine+full) at every size
+ *         13..130 and on both sides of 2^8, 2^9, 1000, 2^10 and 2^16, same
+ *         oracles (operations whose cost is n*depth are bounded, see C11.py).
+ *  list   list iterator against bintree_traverse_list on left- and right-leaning
+ *         spines of every length 1..130 and around 2^8, 2^9, 1000, 2^10 (2^16 for
+ *         the linear direction; for both in the thorough tier).
+ *  wrap   BINTREE_DECLARE_INLINE_WRAPPERS instantiated once (a compile unit of
+ *         its own): every wrapper against the plain function on all small shapes.
  *
  * Shape notation (signatures, replays): pre-order string over B/L/R/o = node
  * with both children / left child only / right child only / no child; "-" is
- * the empty tree. Node ids are pre-order positions (root = 0).
+ * the empty tree; "family:n" names a member of the deep family. Node ids are
+ * pre-order positions (root = 0).
  */
-#include "vx.h"
+#include <stddef.h>
+#include <librfn/bintree.h>
 
-#include "bintree.c"
+/* ---- the typed-wrapper unit (this file is compiled a second time with -DC11_WRAPPER_UNIT; if the macro no longer
+ * accepts this instantiation the driver compiles the stub instead and says so) */
+typedef struct c11w_node { unsigned long tag; bintree_node_t bt; } c11w_node_t;
+struct c11w_api {
+	int present;
+	c11w_node_t *(*left)(c11w_node_t *);
+	c11w_node_t *(*right)(c11w_node_t *);
+	c11w_node_t *(*iterate[3])(bintree_iterator_t *, c11w_node_t *);	/* in, pre, post */
+	c11w_node_t *(*next)(bintree_iterator_t *);
+	void (*complete)(bintree_iterator_t *);
+	void (*free_[3])(c11w_node_t *);					/* free, free_left, free_right */
+};
+extern const struct c11w_api c11w_api;
+void c11w_free_node(bintree_node_t *n);
 
-/* bintree.c's graphviz helper references xmalloc (util.c, which would drag in
- * the time and ratelimit code); it is never called here. Link stub only. */
-void *xmalloc(size_t sz)
+#if defined(C11_WRAPPER_UNIT)
+
+#define c11w_to(n) ((n) ? &(n)->bt : (bintree_node_t *)0)
+static inline c11w_node_t *c11w_from(bintree_node_t *b)
 {
-	(void)sz;
-	fprintf(stderr, "c11: xmalloc link stub called\n");
-	_exit(3);
+	return b ? (c11w_node_t *)((char *)b - offsetof(c11w_node_t, bt)) : (c11w_node_t *)0;
 }
+BINTREE_DECLARE_INLINE_WRAPPERS(c11w, c11w_node_t, c11w_from, c11w_to, c11w_free_node)
+const struct c11w_api c11w_api = {
+	1, c11w_left, c11w_right,
+	{ c11w_iterate_in_order, c11w_iterate_pre_order, c11w_iterate_post_order },
+	c11w_next, c11w_iterate_complete,
+	{ c11w_free, c11w_free_left, c11w_free_right },
+};
 
-#define MAXK 16
-#define MAXSEQ 64
+#elif defined(C11_WRAPPER_STUB)
+
+const struct c11w_api c11w_api = { 0 };
+
+#else /* ------------------------------------------------------------------------------------- the harness proper */
+
+#include "vx.h"
+#include <sys/resource.h>
+
+/* bintree.c references xmalloc (util.c, which would drag in the time and ratelimit code). A change of the library may
+ * start to use it in earnest, so these are real allocators with util.c's contract (never return NULL). */
+void *xmalloc(size_t sz) { void *p = malloc(sz ? sz : 1); if (!p) abort(); return p; }
+void *xzalloc(size_t sz) { void *p = calloc(1, sz ? sz : 1); if (!p) abort(); return p; }
+
+#define MAXK 16			/* largest node count of the exhaustive passes */
+#define MAXN 65552		/* largest node count of the deep family, with slack */
+#define NSZ (sizeof(bintree_node_t))
 
 /* ------------------------------------------------------------------ shapes */
 
 static uint64_t CAT[MAXK + 1];
 static int K;					/* nodes of the current shape */
-static int8_t Lc[MAXK], Rc[MAXK], Par[MAXK], Size[MAXK];
+static int32_t *Lc, *Rc, *Par, *Size, *Dep;	/* [MAXN] */
+static int32_t *stk;				/* [MAXN + 8] scratch stack of the shape code */
 static int nid;
-static char shape_str[MAXK + 2];
+static char *shape_pre;				/* pre-order string of the current shape */
+static char shape_str[96];			/* its name in signatures: the string itself (small) or family:n */
+static int shape_depth;
+static uint64_t shape_cost;			/* sum over nodes of (depth + 1): steps of an operation that walks down from the root for every node */
 
 static int unrank(int k, uint64_t r, int parent)
 {
 	if (k == 0) return -1;
 	int id = nid++, i;
-	Par[id] = (int8_t)parent; Size[id] = (int8_t)k;
+	Par[id] = parent; Size[id] = k;
 	for (i = 0;; i++) { uint64_t c = CAT[i] * CAT[k - 1 - i]; if (r < c) break; r -= c; }
 	uint64_t rl = r / CAT[k - 1 - i], rr = r % CAT[k - 1 - i];
-	Lc[id] = (int8_t)unrank(i, rl, id);
-	Rc[id] = (int8_t)unrank(k - 1 - i, rr, id);
+	Lc[id] = unrank(i, rl, id);
+	Rc[id] = unrank(k - 1 - i, rr, id);
 	return id;
 }
-static void make_shape_str(void)
+static void shape_finish(const char *name)
 {
+	shape_cost = 0; shape_depth = 0;
+	for (int i = 0; i < K; i++) {
+		Dep[i] = Par[i] < 0 ? 0 : Dep[Par[i]] + 1; shape_cost += (uint64_t)Dep[i] + 1;
+		if (Dep[i] + 1 > shape_depth) shape_depth = Dep[i] + 1;
+	}
+	if (name) { snprintf(shape_str, sizeof(shape_str), "%s", name); return; }
 	if (K == 0) { strcpy(shape_str, "-"); return; }
-	for (int i = 0; i < K; i++)
+	for (int i = 0; i < K && i < (int)sizeof(shape_str) - 1; i++)
 		shape_str[i] = Lc[i] >= 0 ? (Rc[i] >= 0 ? 'B' : 'L') : (Rc[i] >= 0 ? 'R' : 'o');
-	shape_str[K] = 0;
+	shape_str[K < (int)sizeof(shape_str) - 1 ? K : (int)sizeof(shape_str) - 1] = 0;
 }
-static const char *pp; static int parse_bad;
-static int parse_node(int parent)
+/* shape_pre[0..n-1] -> Lc/Rc/Par/Size (no recursion: the deep family has 65 538 levels) */
+static int parse_pre(int n)
 {
-	char c = *pp;
-	if (!c || nid >= MAXK) { parse_bad = 1; return -1; }
-	pp++;
-	int id = nid++;
-	Par[id] = (int8_t)parent; Lc[id] = Rc[id] = -1;
-	if (c == 'B' || c == 'L') Lc[id] = (int8_t)parse_node(id);
-	if (c == 'B' || c == 'R') Rc[id] = (int8_t)parse_node(id);
-	if (c != 'B' && c != 'L' && c != 'R' && c != 'o') parse_bad = 1;
-	Size[id] = (int8_t)(nid - id);
-	return id;
-}
-static int parse_shape(const char *s)
-{
-	nid = 0; parse_bad = 0;
-	if (!strcmp(s, "-")) { K = 0; make_shape_str(); return 0; }
-	pp = s; parse_node(-1);
-	if (*pp || parse_bad) return -1;
-	K = nid; make_shape_str();
+	int sp = 0;
+	if (n < 1 || n > MAXN - 8) return -1;
+	stk[sp++] = -1;					/* open slot: (parent << 1 | side), -1 = the root */
+	for (int id = 0; id < n; id++) {
+		char c = shape_pre[id];
+		if (!sp || (c != 'B' && c != 'L' && c != 'R' && c != 'o')) return -1;
+		int slot = stk[--sp];
+		Lc[id] = Rc[id] = -1;
+		if (slot < 0) Par[id] = -1;
+		else { Par[id] = slot >> 1; if (slot & 1) Rc[slot >> 1] = id; else Lc[slot >> 1] = id; }
+		if (c == 'B' || c == 'R') stk[sp++] = id << 1 | 1;
+		if (c == 'B' || c == 'L') stk[sp++] = id << 1;
+	}
+	if (sp) return -1;
+	for (int id = n - 1; id >= 0; id--)
+		Size[id] = 1 + (Lc[id] >= 0 ? Size[Lc[id]] : 0) + (Rc[id] >= 0 ? Size[Rc[id]] : 0);
+	K = n;
 	return 0;
 }
 
-/* independent reference traversals, straight from the shape arrays */
-static int ref_n; static int8_t ref_seq[MAXK];
-static void ref_in(int s) { if (s < 0) return; ref_in(Lc[s]); ref_seq[ref_n++] = (int8_t)s; ref_in(Rc[s]); }
-static void ref_pre(int s) { if (s < 0) return; ref_seq[ref_n++] = (int8_t)s; ref_pre(Lc[s]); ref_pre(Rc[s]); }
-static void ref_post(int s) { if (s < 0) return; ref_post(Lc[s]); ref_post(Rc[s]); ref_seq[ref_n++] = (int8_t)s; }
+/* the deep family: fixed shapes for any node count n */
+enum { F_LSPINE, F_RSPINE, F_ZIGL, F_ZIGR, F_LCOMB, F_RCOMB, F_ZCOMB, F_FULL, F_LSFULL, F_RSFULL, NFAM };
+static const char *famname[NFAM] = { "lspine", "rspine", "zigl", "zigr", "lcomb", "rcomb", "zcomb", "full", "lsfull", "rsfull" };
+static int gen_full(char *s, int n)			/* heap-shaped tree: node h has children 2h+1, 2h+2 while < n */
+{
+	int sp = 0, pos = 0;
+	if (n < 1) return 0;
+	stk[sp++] = 0;
+	while (sp) {
+		int h = stk[--sp], l = 2 * h + 1 < n, r = 2 * h + 2 < n;
+		s[pos++] = l ? (r ? 'B' : 'L') : 'o';
+		if (r) stk[sp++] = 2 * h + 2;
+		if (l) stk[sp++] = 2 * h + 1;
+	}
+	return pos;
+}
+static int gen_family(int fam, int n)
+{
+	char *s = shape_pre;
+	int pos = 0, k, m;
+	if (n < 1 || n > MAXN - 8) return -1;
+	switch (fam) {
+	case F_LSPINE: case F_RSPINE:
+		for (; pos < n - 1; pos++) s[pos] = fam == F_LSPINE ? 'L' : 'R';
+		s[pos++] = 'o'; break;
+	case F_ZIGL: case F_ZIGR:
+		for (; pos < n - 1; pos++) s[pos] = ((pos & 1) == (fam == F_ZIGR)) ? 'L' : 'R';
+		s[pos++] = 'o'; break;
+	case F_LCOMB:			/* left spine, a leaf on the right of every spine node (the left-leaning list shape) */
+		if (n < 3) return -1;
+		m = n; if (!(n & 1)) { s[pos++] = 'L'; m--; }
+		k = (m - 1) / 2;
+		for (int i = 0; i < k; i++) s[pos++] = 'B';
+		for (int i = 0; i <= k; i++) s[pos++] = 'o';
+		break;
+	case F_RCOMB:			/* right spine, a leaf on the left of every spine node */
+		if (n < 3) return -1;
+		m = n; if (!(n & 1)) { s[pos++] = 'R'; m--; }
+		k = (m - 1) / 2;
+		for (int i = 0; i < k; i++) { s[pos++] = 'B'; s[pos++] = 'o'; }
+		s[pos++] = 'o'; break;
+	case F_ZCOMB: {			/* zig-zag path, a leaf on the other side of every path node */
+		int tail = 0;
+		if (n < 3) return -1;
+		m = n; if (!(n & 1)) { s[pos++] = 'L'; m--; }
+		k = (m - 1) / 2;
+		for (int i = 0; i < k; i++) {
+			s[pos++] = 'B';
+			if (i & 1) s[pos++] = 'o'; else tail++;
+		}
+		s[pos++] = 'o';
+		for (int i = 0; i < tail; i++) s[pos++] = 'o';
+		break; }
+	case F_FULL:
+		pos = gen_full(s, n); break;
+	case F_LSFULL: case F_RSFULL:	/* a spine of n/2 nodes with a heap-shaped tree of the rest at its end */
+		if (n < 4) return -1;
+		for (; pos < n / 2; pos++) s[pos] = fam == F_LSFULL ? 'L' : 'R';
+		pos += gen_full(s + pos, n - n / 2); break;
+	default: return -1;
+	}
+	if (pos != n) return -1;
+	s[n] = 0;
+	if (parse_pre(n)) return -1;
+	char nm[64]; snprintf(nm, sizeof(nm), "%s:%d", famname[fam], n);
+	shape_finish(nm);
+	return 0;
+}
+static int parse_shape(const char *s)
+{
+	const char *c = strchr(s, ':');
+	if (!strcmp(s, "-")) { K = 0; shape_finish(NULL); return 0; }
+	if (c) {
+		for (int f = 0; f < NFAM; f++)
+			if (strlen(famname[f]) == (size_t)(c - s) && !strncmp(s, famname[f], (size_t)(c - s)))
+				return gen_family(f, atoi(c + 1));
+		return -1;
+	}
+	size_t n = strlen(s);
+	if (n > MAXK) return -1;
+	memcpy(shape_pre, s, n + 1);
+	if (parse_pre((int)n)) return -1;
+	shape_finish(NULL);
+	return 0;
+}
+
+/* independent reference traversals, straight from the shape arrays (explicit stack) */
+static int ref_n; static int32_t *ref_seq;
+static void ref_in(int s)
+{
+	int sp = 0, cur = s;
+	while (cur >= 0 || sp) {
+		while (cur >= 0) { stk[sp++] = cur; cur = Lc[cur]; }
+		cur = stk[--sp]; ref_seq[ref_n++] = cur; cur = Rc[cur];
+	}
+}
+static void ref_pre(int s)
+{
+	int sp = 0;
+	if (s < 0) return;
+	stk[sp++] = s;
+	while (sp) { int x = stk[--sp]; ref_seq[ref_n++] = x; if (Rc[x] >= 0) stk[sp++] = Rc[x]; if (Lc[x] >= 0) stk[sp++] = Lc[x]; }
+}
+static void ref_post(int s)		/* node, right, left - reversed */
+{
+	int sp = 0, n0 = ref_n;
+	if (s < 0) return;
+	stk[sp++] = s;
+	while (sp) { int x = stk[--sp]; ref_seq[ref_n++] = x; if (Lc[x] >= 0) stk[sp++] = Lc[x]; if (Rc[x] >= 0) stk[sp++] = Rc[x]; }
+	for (int a = n0, b = ref_n - 1; a < b; a++, b--) { int32_t t = ref_seq[a]; ref_seq[a] = ref_seq[b]; ref_seq[b] = t; }
+}
 
 /* ------------------------------------------------------------------- nodes */
 
 enum { LAY_A8, LAY_M2, NLAY };
-static const char *layname[] = { "a8", "m2" };
-enum { PASS_MAIN, PASS_GUARD, PASS_LIST };
-static const char *passname[] = { "main", "guard", "list" };
+enum { PL_ASC, PL_REV, PL_PERM, NPL };
+static const char *layname[NLAY * NPL] = { "a8", "a8r", "a8p", "m2", "m2r", "m2p" };	/* index = layout * NPL + placement */
+enum { PASS_MAIN, PASS_GUARD, PASS_LIST, PASS_DEEP, PASS_WRAP };
+static const char *passname[] = { "main", "guard", "list", "deep", "wrap" };
 
-static uint8_t arena_mem[32 + MAXK * 24 + 32] __attribute__((aligned(64)));
-static uint8_t image0[sizeof(arena_mem)];
+/* strides follow the node type: 8-aligned with a gap of at least 8 bytes / under-aligned (2 mod 4, 0 mod 4 alternating) with a gap of 2.. bytes */
+static size_t stride_of(int layout)
+{
+	size_t s;
+	if (layout == LAY_A8) return (NSZ + 8 + 7) & ~(size_t)7;
+	for (s = NSZ + 2; s % 4 != 2; s++) ;
+	return s;
+}
+static uint8_t *arena_mem, *image0, *scratch_img;	/* [arena_cap] */
+static size_t arena_cap, arena_used;
 static uint8_t *nbase; static size_t nstride;
+static int32_t *slot_of, *id_at;			/* placement of node ids in the arena / in the guard pages */
+static int perm_for_k = -1; static int32_t *perm_cache;
 
 #define MAXG 12
 static uint8_t *gregion;			/* guard pass: [none][node page][none][node page]... */
-static bintree_node_t *gnode[MAXG];
-static uint8_t gdead[MAXG];
+static bintree_node_t *gslot[MAXG];
+static uint8_t gdead[MAXG];			/* by page slot */
 static int g_guard;				/* current pass uses the page-per-node placement */
 
 static uint8_t *poison_page; static bintree_node_t *POISON;
+static bintree_node_t poison_img;
 
 static inline bintree_node_t *NA(int i)
 {
 	if (i < 0) return NULL;
-	return g_guard ? gnode[i] : (bintree_node_t *)(nbase + (size_t)i * nstride);
+	return g_guard ? gslot[slot_of[i]] : (bintree_node_t *)(nbase + (size_t)slot_of[i] * nstride);
 }
 static int id_of(const bintree_node_t *p)
 {
 	if (!p) return -1;
-	if (g_guard) { for (int i = 0; i < K; i++) if (gnode[i] == p) return i; return -2; }
+	if (g_guard) { for (int i = 0; i < K; i++) if (gslot[i] == p) return id_at[i]; return -2; }
 	ptrdiff_t off = (const uint8_t *)p - nbase;
 	if (off < 0 || off % (ptrdiff_t)nstride || off / (ptrdiff_t)nstride >= K) return -2;
-	return (int)(off / (ptrdiff_t)nstride);
+	return id_at[off / (ptrdiff_t)nstride];
 }
 static void put_node(int i)
 {
-	bintree_node_t v = { NA(Lc[i]), NA(Rc[i]) };
-	memcpy(NA(i), &v, sizeof(v));		/* memcpy: the m2 layout is deliberately under-aligned */
+	bintree_node_t v = BINTREE_NODE_VAR_INIT;	/* whatever else a node holds starts as the library's initialiser says */
+	v.left = NA(Lc[i]); v.right = NA(Rc[i]);
+	memcpy(NA(i), &v, sizeof(v));			/* memcpy: the m2 layout is deliberately under-aligned */
 }
 static bintree_node_t get_node(int i) { bintree_node_t v; memcpy(&v, NA(i), sizeof(v)); return v; }
 
-static void build_arena(int layout)
+/* returns 0 if this placement is the same as an earlier one for this node count (tiny trees) */
+static int set_placement(int pl)
+{
+	if (pl == PL_ASC) for (int i = 0; i < K; i++) slot_of[i] = i;
+	else if (pl == PL_REV) { if (K < 2) return 0; for (int i = 0; i < K; i++) slot_of[i] = K - 1 - i; }
+	else {
+		if (K < 3) return 0;
+		if (perm_for_k != K) {		/* one fixed shuffle per node count (Fisher-Yates driven by a hash of (K, i): deterministic) */
+			int asc = 1, rev = 1;
+			for (int i = 0; i < K; i++) perm_cache[i] = i;
+			for (int i = K - 1; i > 0; i--) {
+				int j = (int)(vx_mix(((uint64_t)K << 32) + (uint64_t)i + 0x51ed2701) % (uint64_t)(i + 1));
+				int32_t t = perm_cache[i]; perm_cache[i] = perm_cache[j]; perm_cache[j] = t;
+			}
+			for (int i = 0; i < K; i++) { if (perm_cache[i] != i) asc = 0; if (perm_cache[i] != K - 1 - i) rev = 0; }
+			if (asc || rev) { int32_t t = perm_cache[0]; perm_cache[0] = perm_cache[K / 2]; perm_cache[K / 2] = t; }
+			perm_for_k = K;
+		}
+		memcpy(slot_of, perm_cache, sizeof(int32_t) * (size_t)K);
+	}
+	for (int i = 0; i < K; i++) id_at[slot_of[i]] = i;
+	return 1;
+}
+static int build_arena(int layout, int pl)
 {
 	g_guard = 0;
-	memset(arena_mem, 0xC3, sizeof(arena_mem));
-	if (layout == LAY_A8) { nbase = arena_mem + 16; nstride = 24; }
-	else { nbase = arena_mem + 18; nstride = 18; }
+	if (!set_placement(pl)) return 0;
+	nstride = stride_of(layout);
+	nbase = arena_mem + 16 + (layout == LAY_M2 ? 2 : 0);
+	arena_used = 16 + 2 + (size_t)K * nstride + 16;
+	if (arena_used > arena_cap) { fprintf(stderr, "c11: arena too small\n"); _exit(3); }
+	memset(arena_mem, 0xC3, arena_used);
 	for (int i = 0; i < K; i++) put_node(i);
-	memcpy(image0, arena_mem, sizeof(arena_mem));
+	memcpy(image0, arena_mem, arena_used);
+	return 1;
 }
 static void guard_revive(void)
 {
 	for (int i = 0; i < MAXG; i++) if (gdead[i]) {
-		mprotect((uint8_t *)gnode[i] + sizeof(bintree_node_t) - 4096, 4096, PROT_READ | PROT_WRITE);
+		mprotect((uint8_t *)gslot[i] + NSZ - 4096, 4096, PROT_READ | PROT_WRITE);
 		gdead[i] = 0;
 	}
 }
-static void build_guard(void)
+static void build_guard(void)		/* placement already set */
 {
 	g_guard = 1;
 	guard_revive();
@@ -167,14 +359,15 @@ static void build_guard(void)
 
 /* ------------------------------------------------------------ case context */
 
-enum { OP_IT_IN, OP_IT_PRE, OP_IT_POST, OP_FREE, OP_FREE_L, OP_FREE_R, OP_N };
-static const char *opname[] = { "iter_in", "iter_pre", "iter_post", "free", "free_left", "free_right" };
+enum { OP_IT_IN, OP_IT_PRE, OP_IT_POST, OP_FREE, OP_FREE_L, OP_FREE_R, OP_N, OP_ACCESS = OP_N };
+static const char *opname[] = { "iter_in", "iter_pre", "iter_post", "free", "free_left", "free_right", "left_right" };
 
 static struct {
-	int pass, layout, sub, op, j, owner;
-	int ldir, llen, lelem;			/* list cases */
+	int pass, layout, sub, op, j, owner;	/* layout = layout * NPL + placement */
+	int ldir, llen, lelem, lplace;		/* list cases */
 } C;
 static int g_count;				/* this case belongs to this worker's partition: count it */
+static int g_replay;
 static uint64_t n_hangs;
 static vx_set distinct_set, shape_set;
 
@@ -185,7 +378,13 @@ static void case_text(vx_sb *d, vx_sb *r)
 	if (C.pass == PASS_LIST) {
 		const char *dir = C.ldir ? "right" : "left", *el = C.lelem ? "inner" : "leaf";
 		vx_sb_printf(d, "list spine dir=%s len=%d elems=%s", dir, C.llen, el);
-		vx_sb_printf(r, "pass=list\ndir=%s\nlen=%d\nelems=%s\n", dir, C.llen, el);
+		if (C.lplace) vx_sb_printf(d, " placement=reversed");
+		vx_sb_printf(r, "pass=list\ndir=%s\nlen=%d\nelems=%s\nplace=%d\n", dir, C.llen, el, C.lplace);
+		return;
+	}
+	if (C.pass == PASS_WRAP) {
+		vx_sb_printf(d, "wrap shape=%s root=%d", shape_str, C.sub);
+		vx_sb_printf(r, "pass=wrap\nshape=%s\nsub=%d\nop=%s\n", shape_str, C.sub, opname[C.op]);
 		return;
 	}
 	vx_sb_printf(d, "%s/%s shape=%s root=%d", passname[C.pass], layname[C.layout], shape_str, C.sub);
@@ -195,11 +394,25 @@ static void case_text(vx_sb *d, vx_sb *r)
 		passname[C.pass], layname[C.layout], shape_str, K, C.sub, opname[C.op], C.j, C.owner);
 }
 
-/* One signature per (clause, class): the first failing case in enumeration
- * order names it; later cases of the same (clause, class) are only counted. */
+/* One signature per (clause, class): the first failing case in enumeration order names it; later cases of the same
+ * (clause, class) are only counted. The deep pass is partitioned over the workers, so a worker that meets a new
+ * (clause, class) there re-runs the deep enumeration from its start (all partitions, nothing counted) up to the first
+ * case that fails in that way and names the signature after it: every worker reports the same, smallest case. */
 #define MAXKEYS 96
 static struct { char *key, *sig; } keys[MAXKEYS]; static int nkeys;
+static struct { char *key, *desc, *replay, *msg; } pend[MAXKEYS]; static int npend;
+static int probing, probe_hit, probe_hangs, deep_unit, probe_last_unit; static const char *probe_key;
+static char *probe_desc, *probe_replay, *probe_msg;
 
+static void emit_violation(const char *key, const char *desc, const char *replay, const char *msg)
+{
+	vx_sb s = {0};
+	vx_sb_printf(&s, "C11|%s|%s", key, desc);
+	if (nkeys < MAXKEYS) { keys[nkeys].key = strdup(key); keys[nkeys].sig = strdup(s.s); nkeys++; }
+	vx_violation(s.s, replay, "%s: %s -- case: %s", key, msg, desc);
+	vx_viol_total--;		/* the case was counted when it was met */
+	free(s.s);
+}
 __attribute__((format(printf, 3, 4)))
 static void fail(const char *clause, const char *cls, const char *fmt, ...)
 {
@@ -208,34 +421,54 @@ static void fail(const char *clause, const char *cls, const char *fmt, ...)
 	vx_sb d = {0}, r = {0}; case_text(&d, &r);
 	if (C.pass == PASS_LIST) snprintf(key, sizeof(key), "list.%s|%s", clause, cls);
 	else snprintf(key, sizeof(key), "%s.%s|%s", opname[C.op], clause, cls);
-	const char *sig = NULL;
-	for (int i = 0; i < nkeys; i++) if (!strcmp(keys[i].key, key)) sig = keys[i].sig;
-	if (!sig) {
-		vx_sb s = {0};
-		vx_sb_printf(&s, "C11|%s|%s", key, d.s);
-		sig = s.s;
-		if (nkeys < MAXKEYS) { keys[nkeys].key = strdup(key); keys[nkeys].sig = s.s; nkeys++; }
+	if (probing) {
+		if (!probe_hit && !strcmp(key, probe_key)) {
+			probe_hit = 1;
+			probe_desc = strdup(d.s); probe_replay = strdup(r.s); probe_msg = strdup(m);
+		}
+		goto out;
 	}
-	vx_violation(sig, r.s, "%s: %s -- case: %s", key, m, d.s);
+	vx_viol_total++;
+	for (int i = 0; i < nkeys; i++) if (!strcmp(keys[i].key, key)) goto out;
+	for (int i = 0; i < npend; i++) if (!strcmp(pend[i].key, key)) goto out;
+	if (C.pass == PASS_DEEP && !g_replay && npend < MAXKEYS) {
+		pend[npend].key = strdup(key); pend[npend].desc = strdup(d.s);
+		pend[npend].replay = strdup(r.s); pend[npend].msg = strdup(m); npend++;
+	} else
+		emit_violation(key, d.s, r.s, m);
+out:
 	free(m); free(d.s); free(r.s);
+}
+
+#define C11_FAULT_RUNAWAY 1000
+/* a callback that is called far more often than the tree has nodes: leave the library call (bounded harness loops) */
+static void runaway(const char *what)
+{
+	if (!vx_armed) return;
+	vx_fault_kind = C11_FAULT_RUNAWAY;
+	snprintf(vx_fault_msg, sizeof(vx_fault_msg), "%s", what);
+	siglongjmp(vx_jb, 1);
 }
 static const char *fault_class(void)
 {
 	if (vx_fault_kind == VX_FAULT_ASSERT) return "fault-assert";
-	if (vx_fault_kind == VX_FAULT_HANG) { n_hangs++; return "hang"; }
+	if (vx_fault_kind == VX_FAULT_HANG) { if (probing) probe_hangs++; else n_hangs++; return "hang"; }
+	if (vx_fault_kind == C11_FAULT_RUNAWAY) return "runaway-callbacks";
 	return "fault-signal";
 }
-static void seq_text(vx_sb *b, const int *s, int n)
+/* sequences are printed in full up to 40 entries, longer ones as head ... tail */
+static void seq_text(vx_sb *b, const int32_t *s, int n)
 {
 	vx_sb_printf(b, "[");
 	for (int i = 0; i < n; i++) {
+		if (n > 40 && i >= 12 && i < n - 12) { if (i == 12) vx_sb_printf(b, " ... (%d entries) ...", n - 24); continue; }
 		if (s[i] == -2) vx_sb_printf(b, "%s?", i ? " " : "");
 		else if (s[i] == -1) vx_sb_printf(b, "%sNULL", i ? " " : "");
 		else vx_sb_printf(b, "%s%d", i ? " " : "", s[i]);
 	}
 	vx_sb_printf(b, "]");
 }
-static void note_distinct(const int *obs, int n)
+static void note_distinct(const int32_t *obs, int n)
 {
 	vx_hasher h; vx_h_init(&h);
 	vx_h_u64(&h, (uint64_t)C.pass << 48 | (uint64_t)C.layout << 40 | (uint64_t)C.op << 32 | (uint32_t)C.j);
@@ -244,47 +477,67 @@ static void note_distinct(const int *obs, int n)
 	for (int i = 0; i < n; i++) vx_h_u64(&h, (uint64_t)(int64_t)obs[i]);
 	if (vx_set_add(&distinct_set, vx_h_done(&h))) vx_count("distinct", 1);
 }
+static int smp_iter, smp_free, smp_guard, smp_deep, smp_place, smp_list, smp_longlist, smp_wrap;	/* sample budget per kind */
 
 /* --------------------------------------------------------------- iterators */
 
-static int trav[MAXSEQ], trav_n;
+static int32_t *trav, *got_buf, *dlog;		/* [MAXN + 8] */
+static int trav_n, trav_cap; static uint64_t trav_calls, trav_limit;
+static uint64_t stack_nodes_ok;			/* deepest recursion the stack limit certainly allows */
+
 static void tvis(void *ctx, bintree_node_t *node, bintree_node_t *parent, int depth)
 {
 	(void)ctx; (void)parent; (void)depth;
-	if (node && trav_n < MAXSEQ) trav[trav_n++] = id_of(node);
+	vx_opseq++;				/* progress: the watchdog looks for a library call that gets nowhere */
+	if (++trav_calls > trav_limit) runaway("the recursive traversal calls its visitor without end");
+	if (node && trav_n < trav_cap) trav[trav_n++] = id_of(node);
 }
-static int same_seq(const int *a, int an, const int8_t *b, int bn)
+static int same_seq(const int32_t *a, int an, const int32_t *b, int bn)
 {
 	if (an != bn) return 0;
-	for (int i = 0; i < an; i++) if (a[i] != b[i]) return 0;
-	return 1;
+	return !memcmp(a, b, sizeof(int32_t) * (size_t)an);
 }
-/* which link of which node differs from the pristine image */
-static void restore_diff(char *cls, size_t clsn, vx_sb *msg)
+/* The statement speaks of links: every link of every node must have its original value. Bytes between the nodes belong
+ * to nobody and must not change either; other bytes of a node (a field a later version may add) are not judged.
+ * returns 1 if a violation was recorded */
+static int check_restore(const char *when)
 {
+	char cls[48]; vx_sb msg = {0};
+	if (!memcmp(arena_mem, image0, arena_used)) return 0;
 	for (int i = 0; i < K; i++) {
 		bintree_node_t now, was;
 		memcpy(&now, NA(i), sizeof(now));
 		memcpy(&was, image0 + ((uint8_t *)NA(i) - arena_mem), sizeof(was));
 		if (now.left != was.left) {
 			if (((uintptr_t)now.left ^ (uintptr_t)was.left) == 1) {
-				snprintf(cls, clsn, "left-tag-bit");
-				vx_sb_printf(msg, "node %d: low bit of the left pointer is %s", i, ((uintptr_t)now.left & 1) ? "still set" : "cleared");
+				snprintf(cls, sizeof(cls), "left-tag-bit");
+				vx_sb_printf(&msg, "node %d: low bit of the left pointer is %s", i, ((uintptr_t)now.left & 1) ? "still set" : "cleared");
 			} else {
-				snprintf(cls, clsn, "left-link");
-				vx_sb_printf(msg, "node %d: left link was node %d, is now %d%s", i, id_of(was.left),
+				snprintf(cls, sizeof(cls), "left-link");
+				vx_sb_printf(&msg, "node %d: left link was node %d, is now %d%s", i, id_of(was.left),
 					id_of((bintree_node_t *)((uintptr_t)now.left & ~(uintptr_t)1)), ((uintptr_t)now.left & 1) ? " (tagged)" : "");
 			}
-			return;
+			goto bad;
 		}
 		if (now.right != was.right) {
-			snprintf(cls, clsn, "right-link");
-			vx_sb_printf(msg, "node %d: right link was %s, now points at node %d", i, was.right ? "a child" : "NULL", id_of(now.right));
-			return;
+			snprintf(cls, sizeof(cls), "right-link");
+			vx_sb_printf(&msg, "node %d: right link was %s, now points at node %d", i, was.right ? "a child" : "NULL", id_of(now.right));
+			goto bad;
 		}
 	}
-	snprintf(cls, clsn, "bytes-outside-nodes");
-	vx_sb_printf(msg, "bytes between the nodes changed");
+	memcpy(scratch_img, arena_mem, arena_used);
+	for (int i = 0; i < K; i++) { size_t off = (size_t)((uint8_t *)NA(i) - arena_mem); memcpy(scratch_img + off, image0 + off, NSZ); }
+	if (memcmp(scratch_img, image0, arena_used)) {
+		snprintf(cls, sizeof(cls), "bytes-outside-nodes");
+		vx_sb_printf(&msg, "bytes between the nodes changed");
+		goto bad;
+	}
+	CNT("info_iteration_left_non_link_bytes_of_a_node_changed", 1);
+	return 0;
+bad:
+	fail("restore", cls, "%s %s", when, msg.s);
+	free(msg.s);
+	return 1;
 }
 
 static void run_iter_case(int op, int s, int j)
@@ -292,22 +545,26 @@ static void run_iter_case(int op, int s, int j)
 	static const char *cn[] = { "op_iter_in", "op_iter_pre", "op_iter_post" };
 	static const char *cc[] = { "op_iter_in_then_complete", "op_iter_pre_then_complete", "op_iter_post_then_complete" };
 	static const char *cr[] = { "iter_in_cases_links_rewritten_midway", "iter_pre_cases_links_rewritten_midway", "iter_post_cases_links_rewritten_midway" };
-	int got[MAXSEQ], size = s >= 0 ? Size[s] : 0;
+	int32_t *got = got_buf;
+	int size = s >= 0 ? Size[s] : 0, small = K <= MAXK;
 	volatile int got_n = 0;
-	volatile int overflow = 0, rewrote = 0, faulted = 0, trav_fault = 0;
+	volatile int overflow = 0, rewrote = 0, faulted = 0, trav_fault = 0, trav_done = 0;
 	bintree_iterator_t it;
 	bintree_node_t *root = NA(s), *n;
 
 	C.op = op; C.sub = s; C.j = j; C.owner = -1;
-	memcpy(arena_mem, image0, sizeof(arena_mem));
+	vx_lib_reset();		/* a static the library may keep cannot leak from one case into the next */
+	memcpy(arena_mem, image0, arena_used);
 	ref_n = 0;
 	if (op == OP_IT_IN) ref_in(s); else if (op == OP_IT_PRE) ref_pre(s); else ref_post(s);
 	CNT("evaluations", 1);
 	CNT(j >= 0 ? cc[op] : cn[op], 1);
 
 	/* librfn's own recursive traversal (only once per (op, root): the j >= 0 variants check restoration only) */
-	trav_n = 0;
-	if (j < 0) {
+	trav_n = 0; trav_cap = size + 4; trav_calls = 0; trav_limit = 8 * (uint64_t)size + 64;
+	if (j < 0 && (uint64_t)size > stack_nodes_ok) CNT("scope_skip_recursive_traversal_deeper_than_the_stack", 1);
+	else if (j < 0) {
+		trav_done = 1;
 		if (VX_TRY) {
 			if (op == OP_IT_IN) bintree_traverse_in_order(root, tvis, NULL);
 			else if (op == OP_IT_PRE) bintree_traverse_pre_order(root, tvis, NULL);
@@ -317,7 +574,7 @@ static void run_iter_case(int op, int s, int j)
 			VX_END; trav_fault = 1;
 			fail("order", "librfn-recursive-traversal-faults", "bintree_traverse_* itself: %s", vx_fault_msg);
 		}
-		memcpy(arena_mem, image0, sizeof(arena_mem));
+		if (memcmp(arena_mem, image0, arena_used)) memcpy(arena_mem, image0, arena_used);
 	}
 
 	memset(&it, 0x5a, sizeof(it));
@@ -327,7 +584,8 @@ static void run_iter_case(int op, int s, int j)
 		while (n) {
 			if (got_n > size + 1) { overflow = 1; break; }
 			got[got_n++] = id_of(n);
-			if (!rewrote && memcmp(arena_mem, image0, sizeof(arena_mem))) rewrote = 1;
+			vx_opseq++;
+			if (small && !rewrote && memcmp(arena_mem, image0, arena_used)) rewrote = 1;
 			if (j >= 0 && got_n == j) { bintree_iterate_complete(&it); break; }
 			n = bintree_next(&it);
 		}
@@ -342,45 +600,49 @@ static void run_iter_case(int op, int s, int j)
 
 	if (j < 0) {
 		vx_sb a = {0}, b = {0};
-		int8_t t8[MAXSEQ];
 		if (overflow || !same_seq(got, got_n, ref_seq, ref_n)) {
-			seq_text(&a, got, got_n);
-			int r[MAXK]; for (int i = 0; i < ref_n; i++) r[i] = ref_seq[i];
-			seq_text(&b, r, ref_n);
-			fail("order", "iterator!=reference", "iterator returned %s%s, the recursive definition gives %s",
-				a.s, overflow ? " and more" : "", b.s);
+			seq_text(&a, got, got_n); seq_text(&b, ref_seq, ref_n);
+			fail("order", "iterator!=reference", "iterator returned %d nodes %s%s, the recursive definition gives %d nodes %s",
+				got_n, a.s, overflow ? " and more" : "", ref_n, b.s);
 		}
-		if (!trav_fault) {
-			int tn = trav_n < MAXSEQ ? trav_n : MAXSEQ;
-			for (int i = 0; i < tn; i++) t8[i] = (int8_t)trav[i];
-			if (overflow || !same_seq(got, got_n, t8, tn)) {
+		if (trav_done && !trav_fault) {
+			if (overflow || !same_seq(got, got_n, trav, trav_n)) {
 				vx_sb_reset(&a); vx_sb_reset(&b);
-				seq_text(&a, got, got_n); seq_text(&b, trav, tn);
-				fail("order", "iterator!=librfn-recursive", "iterator returned %s%s, bintree_traverse_* visits %s",
-					a.s, overflow ? " and more" : "", b.s);
+				seq_text(&a, got, got_n); seq_text(&b, trav, trav_n);
+				fail("order", "iterator!=librfn-recursive", "iterator returned %d nodes %s%s, bintree_traverse_* visits %d nodes %s",
+					got_n, a.s, overflow ? " and more" : "", trav_n, b.s);
 			}
 		}
 		free(a.s); free(b.s);
 	}
-	if (!overflow && memcmp(arena_mem, image0, sizeof(arena_mem))) {
-		char cls[48]; vx_sb m = {0};
-		restore_diff(cls, sizeof(cls), &m);
-		fail("restore", cls, "after the iteration ran to completion %s", m.s);
-		free(m.s);
-	}
+	if (!overflow) check_restore("after the iteration ran to completion");
 	if (g_count && s == 0 && K >= 2) note_distinct(got, got_n);
-	if (g_count && s == 0 && j < 0 && vx_want_sample() && K >= 6 && strchr(shape_str, 'B') && strchr(shape_str, 'L') && C.layout == LAY_A8 && (vx_nsamples < 3)) {
-		vx_sb a = {0}; seq_text(&a, got, got_n);
-		vx_sample("main/%s shape=%s %s from the root returns %s; image restored; links rewritten midway: %s",
-			layname[C.layout], shape_str, opname[op], a.s, rewrote ? "yes" : "no");
+	if (g_count && s == 0 && j < 0 && vx_want_sample()) {
+		vx_sb a = {0};
+		if (C.pass == PASS_MAIN && K >= 6 && strchr(shape_str, 'B') && strchr(shape_str, 'L') && C.layout == 0 && smp_iter < 3) {
+			smp_iter++; seq_text(&a, got, got_n);
+			vx_sample("main/%s shape=%s %s from the root returns %s; links restored; links rewritten midway: %s",
+				layname[C.layout], shape_str, opname[op], a.s, rewrote ? "yes" : "no");
+		} else if (C.pass == PASS_MAIN && K >= 6 && strchr(shape_str, 'B') && C.layout % NPL == PL_PERM && smp_place < 1) {
+			vx_sb p = {0};
+			smp_place++; seq_text(&a, got, got_n); seq_text(&p, slot_of, K);
+			vx_sample("main/%s shape=%s nodes placed in arena slots %s: %s from the root returns %s; links restored",
+				layname[C.layout], shape_str, p.s, opname[op], a.s);
+			free(p.s);
+		} else if (C.pass == PASS_DEEP && smp_deep < 2 && (K == 33 || K == 257 || K >= 65535) && op == (smp_deep ? OP_IT_IN : OP_IT_POST)) {
+			smp_deep++; seq_text(&a, got, got_n);
+			vx_sample("deep/%s shape=%s (depth %d) %s from the root returns %d nodes %s; links restored",
+				layname[C.layout], shape_str, shape_depth, opname[op], got_n, a.s);
+		}
 		free(a.s);
 	}
 }
 
 /* -------------------------------------------------------------------- free */
 
-static int dlog[MAXSEQ], dlog_n; static uint64_t dlog_total;
-static uint8_t dcount[MAXK];
+static int dlog_n, dlog_cap; static uint64_t dlog_total, dlog_limit, dealloc_null_calls;
+static uint8_t *dcount;				/* [MAXN] */
+static int32_t *pos_buf;			/* [MAXN] */
 
 /* a node may own something that is a tree itself: its deallocator then frees that tree with bintree_free
  * while the outer bintree_free is still under way (the free functions must not share state between calls) */
@@ -388,29 +650,31 @@ static int nested_owner = -1, nested_ran;
 static bintree_node_t side[3]; static uint8_t side_count[3];
 static void side_dealloc(bintree_node_t *n)
 {
-	for (int i = 0; i < 3; i++) if (n == &side[i]) { if (side_count[i] < 255) side_count[i]++; side[i].left = side[i].right = POISON; }
+	for (int i = 0; i < 3; i++) if (n == &side[i]) { if (side_count[i] < 255) side_count[i]++; side[i] = poison_img; }
 }
 static void dealloc_cb(bintree_node_t *n)
 {
+	vx_opseq++;
+	if (!n) { dealloc_null_calls++; return; }	/* the statement is silent about a deallocator called with NULL: tolerated, counted */
 	int id = id_of(n);
 	if (id >= 0 && id == nested_owner && !nested_ran) {
+		bintree_node_t z = BINTREE_NODE_VAR_INIT;
 		nested_ran = 1;
-		side[0].left = &side[1]; side[0].right = &side[2]; side[1].left = side[1].right = side[2].left = side[2].right = NULL;
+		side[0] = side[1] = side[2] = z;
+		side[0].left = &side[1]; side[0].right = &side[2];
 		memset(side_count, 0, sizeof(side_count));
 		bintree_free(&side[0], side_dealloc);
 	}
-	dlog_total++;
-	if (dlog_n < MAXSEQ) dlog[dlog_n++] = id;
+	if (++dlog_total > dlog_limit) runaway("the deallocator is called without end");
+	if (dlog_n < dlog_cap) dlog[dlog_n++] = id;
 	if (id < 0) return;
 	if (dcount[id] < 255) dcount[id]++;
 	if (dcount[id] > 1) return;
 	if (g_guard) {
-		gdead[id] = 1;
-		mprotect((uint8_t *)n + sizeof(*n) - 4096, 4096, PROT_NONE);
-	} else {
-		bintree_node_t v = { POISON, POISON };
-		memcpy(n, &v, sizeof(v));
-	}
+		gdead[slot_of[id]] = 1;
+		mprotect((uint8_t *)n + NSZ - 4096, 4096, PROT_NONE);
+	} else
+		memcpy(n, &poison_img, NSZ);
 }
 
 static void run_free_case(int op, int s)
@@ -419,14 +683,16 @@ static void run_free_case(int op, int s)
 	static const char *gn[] = { "guard_op_free", "guard_op_free_left", "guard_op_free_right" };
 	int t = op == OP_FREE ? s : op == OP_FREE_L ? Lc[s] : Rc[s];	/* root of what must be deallocated */
 	int lo = t, hi = t >= 0 ? t + Size[t] : -1;			/* pre-order ids of that subtree: lo..hi-1 */
-	int pos[MAXK];
+	int32_t *pos = pos_buf;
 	bintree_node_t *root = NA(s);
 
 	C.op = op; C.sub = s; C.j = -1; C.owner = nested_owner;
 	nested_ran = 0;
+	vx_lib_reset();
 	if (nested_owner >= 0) CNT("free_cases_with_a_deallocator_that_frees_another_tree", 1);
-	if (g_guard) build_guard(); else memcpy(arena_mem, image0, sizeof(arena_mem));
-	memset(dcount, 0, sizeof(dcount)); dlog_n = 0; dlog_total = 0;
+	if (g_guard) build_guard(); else memcpy(arena_mem, image0, arena_used);
+	memset(dcount, 0, (size_t)K + 1); dlog_n = 0; dlog_total = 0; dealloc_null_calls = 0;
+	dlog_cap = K + 4; dlog_limit = 2 * (uint64_t)K + 64;
 	CNT("evaluations", 1);
 	CNT(g_guard ? gn[op - OP_FREE] : cn[op - OP_FREE], 1);
 
@@ -441,7 +707,7 @@ static void run_free_case(int op, int s)
 		uint8_t *fa = (uint8_t *)vx_fault_addr;
 		int hit = -1;
 		if (vx_fault_kind == SIGSEGV || vx_fault_kind == SIGBUS) {
-			if (g_guard) { for (int i = 0; i < K; i++) if (gdead[i] && fa >= (uint8_t *)gnode[i] + sizeof(bintree_node_t) - 4096 && fa < (uint8_t *)gnode[i] + sizeof(bintree_node_t)) hit = i; }
+			if (g_guard) { for (int i = 0; i < K; i++) if (gdead[slot_of[i]] && fa >= (uint8_t *)NA(i) + NSZ - 4096 && fa < (uint8_t *)NA(i) + NSZ) hit = i; }
 			else if (fa >= poison_page && fa < poison_page + 4096) hit = -2;
 		}
 		if (hit >= 0) fail("use-after-dealloc", "access-to-revoked-node", "node %d was touched after it had been handed to the deallocator (%d deallocations so far)", hit, dlog_n);
@@ -452,6 +718,7 @@ static void run_free_case(int op, int s)
 		return;
 	}
 	CNT("dealloc_calls", dlog_total);
+	if (dealloc_null_calls) CNT("info_deallocator_called_with_NULL", dealloc_null_calls);
 
 	/* exactly once, nothing else */
 	vx_sb lg = {0}; seq_text(&lg, dlog, dlog_n);
@@ -461,14 +728,14 @@ static void run_free_case(int op, int s)
 	int bad_once = 0;
 	for (int i = 0; i < dlog_n && !bad_once; i++) {
 		int id = dlog[i];
-		if (id < 0) { fail("once", "foreign-pointer", "deallocator called with %s; log %s", id == -1 ? "NULL" : "a pointer that is no node", lg.s); bad_once = 1; }
+		if (id < 0) { fail("once", "foreign-pointer", "deallocator called with a pointer that is no node; log %s", lg.s); bad_once = 1; }
 		else if (id < lo || id >= hi) { fail("once", "node-outside-subtree", "node %d is not part of the subtree but was deallocated; log %s", id, lg.s); bad_once = 1; }
 		else if (pos[id] >= 0) { fail("once", "twice", "node %d deallocated twice; log %s", id, lg.s); bad_once = 1; }
 		else pos[id] = i;
 	}
 	if (!bad_once && dlog_total > (uint64_t)dlog_n) { fail("once", "twice", "%llu deallocator calls for %d nodes", (unsigned long long)dlog_total, hi - lo); bad_once = 1; }
 	for (int id = lo; id < hi && !bad_once; id++)
-		if (pos[id] < 0) { fail("once", "missed", "node %d was never deallocated; log %s", id, lg.s); bad_once = 1; }
+		if (pos[id] < 0) { fail("once", "missed", "node %d was never deallocated; %d deallocations for %d nodes; log %s", id, dlog_n, hi - lo, lg.s); bad_once = 1; }
 	/* children before parents */
 	if (!bad_once)
 		for (int id = lo; id < hi; id++) {
@@ -478,8 +745,7 @@ static void run_free_case(int op, int s)
 	/* a store into a deallocated node (main pass; in the guard pass it would have faulted) */
 	if (!g_guard)
 		for (int id = 0; id < K; id++) if (dcount[id]) {
-			bintree_node_t v = get_node(id);
-			if (v.left != POISON || v.right != POISON) { fail("use-after-dealloc", "store-into-deallocated-node", "node %d was written after it had been deallocated; log %s", id, lg.s); break; }
+			if (memcmp(NA(id), &poison_img, NSZ)) { fail("use-after-dealloc", "store-into-deallocated-node", "node %d was written after it had been deallocated; log %s", id, lg.s); break; }
 		}
 	/* parent link cleared (the variants know the parent; dcount[s]: the parent itself was wrongly freed, reported above) */
 	if (op != OP_FREE && !dcount[s]) {
@@ -489,7 +755,7 @@ static void run_free_case(int op, int s)
 			"after %s(node %d) the link is %s, not NULL", opname[op], s, id_of(lnk) >= 0 ? "still a node" : "a non-NULL value");
 	}
 	/* informational only (the statement is silent): surviving nodes otherwise untouched? */
-	if (!g_guard) {
+	if (!g_guard && g_count) {
 		int touched = 0;
 		for (int id = 0; id < K; id++) if (!dcount[id]) {
 			bintree_node_t now = get_node(id), was; memcpy(&was, image0 + ((uint8_t *)NA(id) - arena_mem), sizeof(was));
@@ -500,87 +766,189 @@ static void run_free_case(int op, int s)
 		if (touched) { CNT("info_free_changed_a_surviving_node", 1); vx_note("informational: a free variant changed a link of a node outside the freed subtree (not part of the statement, not a violation)"); }
 	}
 	if (g_count && s == 0 && K >= 2) note_distinct(dlog, dlog_n);
-	if (g_count && s == 0 && op == OP_FREE && vx_want_sample() && K >= 6 && strchr(shape_str, 'B') && strchr(shape_str, 'L') && vx_nsamples < 5)
-		vx_sample("%s/%s shape=%s bintree_free(root): deallocation order %s", passname[C.pass], layname[C.layout], shape_str, lg.s);
+	if (g_count && s == 0 && op == OP_FREE && vx_want_sample() && K >= 6) {
+		if (C.pass == PASS_MAIN && strchr(shape_str, 'B') && strchr(shape_str, 'L') && smp_free < 2 && nested_owner < 0 && C.layout == (smp_free ? LAY_M2 * NPL + PL_REV : 0)) {
+			smp_free++;
+			vx_sample("main/%s shape=%s bintree_free(root): deallocation order %s", layname[C.layout], shape_str, lg.s);
+		} else if (C.pass == PASS_GUARD && strchr(shape_str, 'B') && smp_guard < 1) {
+			smp_guard++;
+			vx_sample("guard/%s shape=%s bintree_free(root), page of each node revoked as it is deallocated: order %s", layname[C.layout], shape_str, lg.s);
+		} else if (C.pass == PASS_DEEP && smp_free < 3 && (K == 66 || K == 1000)) {
+			smp_free = 3;
+			vx_sample("deep/%s shape=%s bintree_free(root): %d deallocations, order %s", layname[C.layout], shape_str, dlog_n, lg.s);
+		}
+	}
 	free(lg.s);
 	if (g_guard) guard_revive();
 }
 
 /* ---------------------------------------------------- one shape, all cases */
 
-static int SUBK, CK, GN, M2K;			/* bounds of the secondary dimensions (set per tier) */
+static int SUBK, CK, GN, M2K, PERMK, REVK;		/* bounds of the secondary dimensions (set per tier) */
+static uint64_t COST_ALL, COST_BIG;		/* deep pass: bound on n*depth-cost operations (every layout / first layout only) */
 
 static void run_case(int op, int s, int j)
 {
 	if (op <= OP_IT_POST) run_iter_case(op, s, j); else run_free_case(op, s);
 }
+static int too_many(void) { return vx_viol_total > 3000 || n_hangs >= 3; }
 
 static void run_shape(void)
 {
 	C.pass = PASS_MAIN;
-	for (int lay = 0; lay < NLAY; lay++) {
+	for (int lay = 0; lay < NLAY; lay++) for (int pl = 0; pl < NPL; pl++) {
 		if (lay == LAY_M2 && K > M2K) continue;
-		C.layout = lay;
-		build_arena(lay);
+		if (pl == PL_PERM && K > PERMK) continue;
+		if (pl == PL_REV && K > REVK) continue;
+		if (lay == LAY_M2 && pl == PL_PERM) continue;
+		C.layout = lay * NPL + pl;
+		if (!build_arena(lay, pl)) continue;
 		if (K == 0) {	/* the empty tree: iterators and bintree_free accept NULL; the variants need a node */
 			for (int op = OP_IT_IN; op <= OP_FREE; op++) run_case(op, -1, -1);
 			CNT("scope_skip_free_variant_on_empty_tree", 2);
 			continue;
 		}
-		int ns = K <= SUBK ? K : 1;
+		if (pl) CNT(pl == PL_REV ? "cases_with_reversed_node_placement" : "cases_with_permuted_node_placement", OP_N);
+		int ns = K <= SUBK && pl == PL_ASC ? K : 1;
 		for (int s = 0; s < ns; s++) {
 			for (int op = 0; op < OP_N; op++) run_case(op, s, -1);
 			if (s) CNT("cases_with_inner_node_as_root", OP_N);
 		}
-		if (K <= CK)
+		if (K <= CK && pl != PL_PERM)
 			for (int op = OP_IT_IN; op <= OP_IT_POST; op++)
 				for (int j = 1; j <= K; j++) run_case(op, 0, j);
 		/* every node in turn owns a second tree that its deallocator frees with bintree_free (small shapes) */
-		if (K <= 7 && lay == LAY_A8)
+		if (K <= 7 && lay == LAY_A8 && pl == PL_ASC)
 			for (int owner = 0; owner < K; owner++) {
 				nested_owner = owner;
 				for (int op = OP_FREE; op < OP_N; op++) run_case(op, 0, -1);
 				nested_owner = -1;
 			}
 	}
-	if (K >= 1 && K <= GN) {
-		C.pass = PASS_GUARD; C.layout = LAY_A8;
-		build_guard();
-		for (int s = 0; s < K; s++)
-			for (int op = OP_FREE; op < OP_N; op++) run_case(op, s, -1);
-		g_guard = 0;
+	if (K >= 1 && K <= GN)
+		for (int pl = PL_ASC; pl <= PL_REV; pl++) {
+			C.pass = PASS_GUARD; C.layout = LAY_A8 * NPL + pl;
+			if (!set_placement(pl)) continue;
+			build_guard();
+			for (int s = 0; s < K; s++)
+				for (int op = OP_FREE; op < OP_N; op++) run_case(op, s, -1);
+			g_guard = 0;
+		}
+}
+
+/* ---------------------------------------------------------------- deep family */
+
+static int deep_sizes[256], n_deep_sizes;
+static void add_sizes(int *v, int *n, int lo, int hi) { for (int i = lo; i <= hi; i++) v[(*n)++] = i; }
+
+/* all cases of one member of the family; count = this worker owns the unit */
+static void run_deep_unit(int fam, int n, int count)
+{
+	g_count = count;
+	if (gen_family(fam, n)) { CNT("deep_family_member_does_not_exist_at_this_size", 1); return; }
+	CNT("deep_shapes", 1);
+	if (g_count) { vx_max("deep_max_nodes", (uint64_t)K); vx_max("deep_max_depth", (uint64_t)shape_depth); }
+	C.pass = PASS_DEEP;
+	for (int lay = 0; lay < NLAY; lay++) for (int pl = 0; pl < NPL; pl++) {
+		if (probing ? probe_hit || probe_hangs >= 2 : too_many()) return;
+		C.layout = lay * NPL + pl;
+		if (!build_arena(lay, pl)) continue;
+		uint64_t lim = (lay == LAY_A8 && pl == PL_ASC && COST_BIG > COST_ALL) ? COST_BIG : COST_ALL;
+		for (int op = 0; op < OP_N; op++) {
+			/* in-/pre-order iteration and the recursive traversals are linear; post-order iteration and the free
+			 * functions walk down from the root for every node */
+			if (op >= OP_IT_POST && shape_cost > lim) { CNT("deep_scope_skip_quadratic_operation_above_cost_bound", 1); continue; }
+			if (op >= OP_IT_POST && shape_cost > COST_ALL && op != OP_IT_POST && op != OP_FREE) { CNT("deep_scope_skip_quadratic_operation_above_cost_bound", 1); continue; }
+			run_case(op, 0, -1);
+			CNT("deep_cases", 1);
+			if (op <= OP_IT_POST && shape_cost <= COST_ALL) {
+				int js[3] = { 1, K / 2, K - 1 };
+				for (int q = 0; q < 3; q++) { run_case(op, 0, js[q]); CNT("deep_cases", 1); }
+			}
+		}
 	}
+}
+static int deep_pass(int probe);
+static void deep_flush_pending(void)
+{
+	for (int i = 0; i < npend; i++) {
+		const char *desc = pend[i].desc, *rep = pend[i].replay, *msg = pend[i].msg;
+		probe_hit = 0; probe_hangs = 0; probe_key = pend[i].key; probe_last_unit = deep_unit;
+		if (n_hangs < 3) { probing = 1; deep_pass(1); probing = 0; }
+		if (probe_hit) { desc = probe_desc; rep = probe_replay; msg = probe_msg; }
+		emit_violation(pend[i].key, desc, rep, msg);
+		if (probe_hit) { free(probe_desc); free(probe_replay); free(probe_msg); probe_hit = 0; }
+		free(pend[i].key); free(pend[i].desc); free(pend[i].replay); free(pend[i].msg);
+	}
+	npend = 0;
+}
+/* returns 1 if stopped early */
+static int deep_pass(int probe)
+{
+	uint64_t part = 7;
+	for (int si = 0; si < n_deep_sizes; si++)
+		for (int fam = 0; fam < NFAM; fam++) {
+			int mine = vx_mine(part++), unit = si * NFAM + fam;
+			if (probe) {
+				if (probe_hit || probe_hangs >= 2 || unit > probe_last_unit) return 0;
+				run_deep_unit(fam, deep_sizes[si], 0);
+				continue;
+			}
+			if (!mine) continue;
+			if (vx_deadline_passed() || too_many() || vx_too_many_violations()) return 1;
+			deep_unit = unit;
+			run_deep_unit(fam, deep_sizes[si], 1);
+			if (npend) deep_flush_pending();
+		}
+	return 0;
 }
 
 /* -------------------------------------------------------------- list spines */
 
-typedef struct { bintree_node_t n; int is_list; int code; } lnode_t;
-#define MAXLEN 32
-static lnode_t lnodes[MAXLEN + 3 * (MAXLEN + 1)];
-static int ln_n;
+typedef struct { bintree_node_t n; int is_list; int32_t code; } lnode_t;
+#define LCODE_SPINE 0x40000000
+#define LCODE_CHILD 0x20000000
+static lnode_t *lpool; static int lpool_cap, ln_n, ln_rev;
+static lnode_t **lsp, **lel;			/* [MAXN] */
+static int32_t *lseq; static int lseq_n, lseq_cap; static uint64_t lvis_calls, lvis_limit, is_list_calls, is_list_limit, is_list_null;
 
-static bool is_list_cb(bintree_node_t *n) { return ((lnode_t *)n)->is_list != 0; }	/* a realistic predicate: looks at the node */
+/* a realistic predicate: looks at the node. The statement does not say whether is_list may be asked about "no node";
+ * the answer is the obvious one (no list node there) and the question is counted */
+static bool is_list_cb(bintree_node_t *n)
+{
+	if (++is_list_calls > is_list_limit) runaway("is_list is called without end");
+	if (!n) { is_list_null++; return false; }
+	return ((lnode_t *)n)->is_list != 0;
+}
 static int lcode(bintree_node_t *n)
 {
 	if (!n) return -1;
 	lnode_t *p = (lnode_t *)n;
-	if (p < lnodes || p >= lnodes + ln_n) return -2;
+	if (p < lpool || p >= lpool + lpool_cap) return -2;
 	return p->code;
 }
-static int lseq[MAXSEQ * 2], lseq_n;
-static void lvis(void *ctx, bintree_node_t *n) { (void)ctx; if (lseq_n < MAXSEQ * 2) lseq[lseq_n++] = lcode(n); }
+static void lvis(void *ctx, bintree_node_t *n)
+{
+	(void)ctx;
+	vx_opseq++;
+	if (++lvis_calls > lvis_limit) runaway("bintree_traverse_list calls its visitor without end");
+	if (n && lseq_n < lseq_cap) lseq[lseq_n++] = lcode(n);
+}
 static lnode_t *lnew(int is_list, int code)
 {
-	lnode_t *p = &lnodes[ln_n++];
-	memset(p, 0, sizeof(*p)); p->is_list = is_list; p->code = code;
+	lnode_t *p = ln_rev ? &lpool[lpool_cap - 1 - ln_n] : &lpool[ln_n];
+	bintree_node_t z = BINTREE_NODE_VAR_INIT;
+	ln_n++;
+	p->n = z; p->is_list = is_list; p->code = code;
 	return p;
 }
-static void ltext(vx_sb *b, const int *s, int n)
+static void ltext(vx_sb *b, const int32_t *s, int n)
 {
 	vx_sb_printf(b, "[");
 	for (int i = 0; i < n; i++) {
-		if (s[i] >= 2000) vx_sb_printf(b, "%schild%d", i ? " " : "", s[i] - 2000);
-		else if (s[i] >= 1000) vx_sb_printf(b, "%sL%d", i ? " " : "", s[i] - 1000);
+		if (n > 40 && i >= 12 && i < n - 12) { if (i == 12) vx_sb_printf(b, " ... (%d entries) ...", n - 24); continue; }
+		if (s[i] >= LCODE_SPINE) vx_sb_printf(b, "%sL%d", i ? " " : "", s[i] - LCODE_SPINE);
+		else if (s[i] >= LCODE_CHILD) vx_sb_printf(b, "%schild%d", i ? " " : "", s[i] - LCODE_CHILD);
 		else if (s[i] == -1) vx_sb_printf(b, "%sNULL", i ? " " : "");
 		else if (s[i] < 0) vx_sb_printf(b, "%s?", i ? " " : "");
 		else vx_sb_printf(b, "%se%d", i ? " " : "", s[i]);
@@ -589,21 +957,22 @@ static void ltext(vx_sb *b, const int *s, int n)
 }
 
 /* spine nodes L0 (top) .. L(len-1); elements e0..e(len) in list order */
-static void run_list_case(int dir, int len, int elem)
+static void run_list_case(int dir, int len, int elem, int place)
 {
-	lnode_t *sp[MAXLEN], *el[MAXLEN + 1];
-	int got[MAXSEQ * 2];
+	lnode_t **sp = lsp, **el = lel;
+	int32_t *got = got_buf;
 	volatile int got_n = 0;
 	volatile int overflow = 0, faulted = 0, trav_fault = 0;
 	bintree_iterator_t it;
 	bintree_node_t *n;
 
-	C.pass = PASS_LIST; C.ldir = dir; C.llen = len; C.lelem = elem; C.j = -1;
-	ln_n = 0;
-	for (int i = 0; i < len; i++) sp[i] = lnew(1, 1000 + i);
+	C.pass = PASS_LIST; C.ldir = dir; C.llen = len; C.lelem = elem; C.lplace = place; C.j = -1;
+	ln_n = 0; ln_rev = place;
+	vx_lib_reset();
+	for (int i = 0; i < len; i++) sp[i] = lnew(1, LCODE_SPINE + i);
 	for (int i = 0; i <= len; i++) {
 		el[i] = lnew(0, i);
-		if (elem) { el[i]->n.left = &lnew(0, 2000 + 2 * i)->n; el[i]->n.right = &lnew(0, 2001 + 2 * i)->n; }
+		if (elem) { el[i]->n.left = &lnew(0, LCODE_CHILD + 2 * i)->n; el[i]->n.right = &lnew(0, LCODE_CHILD + 2 * i + 1)->n; }
 	}
 	if (dir == 0) {		/* left-leaning: the deepest spine node holds e0,e1; every node above adds one on its right */
 		for (int i = 0; i < len - 1; i++) { sp[i]->n.left = &sp[i + 1]->n; sp[i]->n.right = &el[len - i]->n; }
@@ -613,16 +982,20 @@ static void run_list_case(int dir, int len, int elem)
 		sp[len - 1]->n.left = &el[len - 1]->n; sp[len - 1]->n.right = &el[len]->n;
 	}
 	CNT("evaluations", 1); CNT("op_list_iterate", 1);
+	if (place) CNT("list_cases_with_reversed_node_placement", 1);
 
-	lseq_n = 0;
+	lseq_n = 0; lseq_cap = len + 4; lvis_calls = 0; lvis_limit = 4 * (uint64_t)len + 64;
+	is_list_calls = 0; is_list_limit = 16 * (uint64_t)len + 256; is_list_null = 0;
 	if (VX_TRY) { bintree_traverse_list(&sp[0]->n, is_list_cb, lvis, NULL); VX_END; }
 	else { VX_END; trav_fault = 1; fail("order", "librfn-recursive-traversal-faults", "bintree_traverse_list itself: %s", vx_fault_msg); }
 
 	memset(&it, 0x5a, sizeof(it));
+	is_list_calls = 0;
 	if (VX_TRY) {
 		for (n = bintree_iterate_list(&it, &sp[0]->n, is_list_cb); n; n = bintree_next(&it)) {
 			if (got_n > len + 2) { overflow = 1; break; }
 			got[got_n++] = lcode(n);
+			vx_opseq++; is_list_calls = 0;
 		}
 		VX_END;
 	} else {
@@ -630,48 +1003,219 @@ static void run_list_case(int dir, int len, int elem)
 		fail("order", fault_class(), "%s after %d elements were returned", vx_fault_msg, got_n);
 	}
 	CNT("list_elements_returned", (uint64_t)got_n);
+	if (is_list_null) CNT("info_is_list_asked_about_NULL", is_list_null);
 	if (faulted) return;
 	vx_sb a = {0}, b = {0};
 	int same = !overflow && got_n == len + 1;
 	for (int i = 0; same && i <= len; i++) if (got[i] != i) same = 0;
 	ltext(&a, got, got_n);
-	if (!same) fail("order", "iterator!=reference", "list iterator returned %s%s, the list is e0..e%d", a.s, overflow ? " and more" : "", len);
+	if (!same) fail("order", "iterator!=reference", "list iterator returned %d elements %s%s, the list is e0..e%d", got_n, a.s, overflow ? " and more" : "", len);
 	if (!trav_fault) {
 		int eq = !overflow && got_n == lseq_n;
 		for (int i = 0; eq && i < got_n; i++) if (got[i] != lseq[i]) eq = 0;
-		if (!eq) { ltext(&b, lseq, lseq_n); fail("order", "iterator!=librfn-recursive", "list iterator returned %s%s, bintree_traverse_list visits %s", a.s, overflow ? " and more" : "", b.s); }
+		if (!eq) { ltext(&b, lseq, lseq_n); fail("order", "iterator!=librfn-recursive", "list iterator returned %d elements %s%s, bintree_traverse_list visits %d: %s", got_n, a.s, overflow ? " and more" : "", lseq_n, b.s); }
 	}
 	if (g_count) {
 		vx_hasher h; vx_h_init(&h);
-		vx_h_u64(&h, 0x7157ULL << 32 | (uint64_t)dir << 16 | (uint64_t)elem << 8 | (uint64_t)len);
+		vx_h_u64(&h, 0x7157ULL << 40 | (uint64_t)place << 36 | (uint64_t)dir << 34 | (uint64_t)elem << 32 | (uint64_t)len);
 		for (int i = 0; i < got_n; i++) vx_h_u64(&h, (uint64_t)(int64_t)got[i]);
 		if (vx_set_add(&distinct_set, vx_h_done(&h))) vx_count("distinct", 1);
-		if (len == 4 && elem == 0 && vx_want_sample())
+		if (len == 4 && elem == 0 && !place && smp_list < 2 && vx_want_sample()) {
+			smp_list++;
 			vx_sample("list spine dir=%s len=4 elems=leaf: iterator returns %s", dir ? "right" : "left", a.s);
+		}
+		if (len >= 257 && smp_longlist < 1 && vx_want_sample()) {
+			smp_longlist++;
+			vx_sample("list spine dir=%s len=%d elems=%s%s: iterator returns %d elements %s, as bintree_traverse_list",
+				dir ? "right" : "left", len, elem ? "inner" : "leaf", place ? " placement=reversed" : "", got_n, a.s);
+		}
 	}
 	free(a.s); free(b.s);
 }
 
+static int list_lens[256], n_list_lens;
+static uint64_t LIST_COST_ALL, LIST_COST_BIG;
+/* cheap cases are run by EVERY worker (same first failing case everywhere) and counted by one; the few expensive ones
+ * (left-leaning around 2^16: the iterator walks down from the top for every element) are partitioned */
+static void list_pass(uint64_t *part)
+{
+	for (int li = 0; li < n_list_lens; li++)
+		for (int dir = 0; dir < 2; dir++)
+			for (int elem = 0; elem < 2; elem++)
+				for (int place = 0; place < 2; place++) {
+					int len = list_lens[li];
+					uint64_t cost = dir ? (uint64_t)len : (uint64_t)len * (uint64_t)len / 2;
+					g_count = vx_mine((*part)++);
+					if (too_many() || vx_deadline_passed()) continue;
+					if (cost > LIST_COST_BIG) { CNT("list_scope_skip_left_leaning_above_cost_bound", 1); continue; }
+					if (cost > LIST_COST_ALL && !g_count) continue;
+					run_list_case(dir, len, elem, place);
+					if (g_count) { vx_count("list_cases", 1); vx_max(dir ? "list_max_spine_length_right" : "list_max_spine_length_left", (uint64_t)len); }
+				}
+}
+
+/* ------------------------------------------- typed wrappers against the plain functions */
+
+#define WMAXK 8
+static c11w_node_t wn[2][WMAXK];		/* [0]: driven through the c11w_* wrappers, [1]: through bintree_* */
+static int w_side; static int32_t w_log[2][4 * WMAXK + 8]; static int w_logn[2];
+static bintree_node_t w_links[2][WMAXK];	/* links afterwards, as node ids (+1, 0 = NULL, -1 = something else) */
+
+static int w_id(int side, const bintree_node_t *b)
+{
+	if (!b) return -1;
+	for (int i = 0; i < K; i++) if (&wn[side][i].bt == b) return i;
+	return -2;
+}
+static void w_push(int side, int v) { if (w_logn[side] < 4 * WMAXK + 8) w_log[side][w_logn[side]++] = v; }
+void c11w_free_node(bintree_node_t *n)
+{
+	int id = w_id(w_side, n);
+	w_push(w_side, id);
+	if (id >= 0) wn[w_side][id].bt = poison_img;
+}
+static void w_build(int side)
+{
+	bintree_node_t z = BINTREE_NODE_VAR_INIT;
+	for (int i = 0; i < K; i++) {
+		wn[side][i].tag = 0xabcd0000ul + (unsigned long)i; wn[side][i].bt = z;
+		wn[side][i].bt.left = Lc[i] >= 0 ? &wn[side][Lc[i]].bt : NULL;
+		wn[side][i].bt.right = Rc[i] >= 0 ? &wn[side][Rc[i]].bt : NULL;
+	}
+	w_logn[side] = 0;
+}
+static int w_nid(int side, c11w_node_t *p) { return p ? (p >= wn[side] && p < wn[side] + K ? (int)(p - wn[side]) : -2) : -1; }
+
+static void run_wrap_case(int op, int s)
+{
+	volatile int fault[2] = { 0, 0 };
+	C.pass = PASS_WRAP; C.op = op; C.sub = s; C.j = -1; C.owner = -1;
+	CNT("evaluations", 1); CNT("wrapper_cases", 1);
+	for (int side = 0; side < 2; side++) {
+		bintree_iterator_t it;
+		c11w_node_t *root = s >= 0 ? &wn[side][s] : NULL;
+		w_side = side; w_build(side);
+		vx_lib_reset();
+		memset(&it, 0x5a, sizeof(it));
+		if (VX_TRY) {
+			if (op <= OP_IT_POST) {
+				int cnt = 0;
+				if (side == 0) {
+					for (c11w_node_t *p = c11w_api.iterate[op](&it, root); p && cnt++ <= K + 1; p = c11w_api.next(&it)) w_push(0, w_nid(0, p));
+				} else {
+					bintree_node_t *r = root ? &root->bt : NULL;
+					for (bintree_node_t *p = op == OP_IT_IN ? bintree_iterate_in_order(&it, r) : op == OP_IT_PRE ? bintree_iterate_pre_order(&it, r) : bintree_iterate_post_order(&it, r);
+					     p && cnt++ <= K + 1; p = bintree_next(&it)) w_push(1, w_id(1, p));
+				}
+			} else if (op < OP_N) {
+				if (side == 0) c11w_api.free_[op - OP_FREE](root);
+				else if (op == OP_FREE) bintree_free(root ? &root->bt : NULL, c11w_free_node);
+				else if (op == OP_FREE_L) bintree_free_left(&root->bt, c11w_free_node);
+				else bintree_free_right(&root->bt, c11w_free_node);
+			} else {	/* the accessors, and iterate_complete after the first node */
+				if (side == 0) {
+					w_push(0, w_nid(0, c11w_api.left(root))); w_push(0, w_nid(0, c11w_api.right(root)));
+					if (c11w_api.iterate[OP_IT_IN](&it, root)) c11w_api.complete(&it);
+				} else {
+					w_push(1, w_id(1, root->bt.left)); w_push(1, w_id(1, root->bt.right));
+					if (bintree_iterate_in_order(&it, &root->bt)) bintree_iterate_complete(&it);
+				}
+			}
+			VX_END;
+		} else { VX_END; fault[side] = 1; if (vx_fault_kind == VX_FAULT_HANG) n_hangs++; }
+		for (int i = 0; i < K; i++) {
+			w_links[side][i].left = (bintree_node_t *)(intptr_t)(w_id(side, wn[side][i].bt.left) + 1);
+			w_links[side][i].right = (bintree_node_t *)(intptr_t)(w_id(side, wn[side][i].bt.right) + 1);
+			if (!memcmp(&wn[side][i].bt, &poison_img, NSZ)) w_links[side][i].left = w_links[side][i].right = (bintree_node_t *)(intptr_t)-7;
+		}
+	}
+	int differ = fault[0] != fault[1] || w_logn[0] != w_logn[1] || memcmp(w_log[0], w_log[1], sizeof(int32_t) * (size_t)w_logn[0]);
+	int links = 0;
+	for (int i = 0; i < K; i++) if (w_links[0][i].left != w_links[1][i].left || w_links[0][i].right != w_links[1][i].right) links = 1;
+	if (differ || links) {
+		vx_sb a = {0}, b = {0};
+		seq_text(&a, w_log[0], w_logn[0]); seq_text(&b, w_log[1], w_logn[1]);
+		fail("wrapper", "differs-from-plain-function", "through the c11w_* wrappers (BINTREE_DECLARE_INLINE_WRAPPERS): %s%s; through bintree_*: %s%s%s",
+			a.s, fault[0] ? " then a fault" : "", b.s, fault[1] ? " then a fault" : "", links && !differ ? "; the links of the two trees differ afterwards" : "");
+		free(a.s); free(b.s);
+	}
+	if (g_count) {
+		vx_hasher h; vx_h_init(&h);
+		vx_h_u64(&h, 0x77ULL << 48 | (uint64_t)op << 32 | (uint32_t)s);
+		vx_h_bytes(&h, shape_str, strlen(shape_str));
+		for (int i = 0; i < w_logn[0]; i++) vx_h_u64(&h, (uint64_t)(int64_t)w_log[0][i]);
+		if (K >= 2 && vx_set_add(&distinct_set, vx_h_done(&h))) vx_count("distinct", 1);
+		if (K >= 5 && op == OP_FREE_R && s == 0 && Rc[0] >= 0 && Lc[0] >= 0 && smp_wrap < 1 && vx_want_sample()) {
+			vx_sb a = {0}; seq_text(&a, w_log[0], w_logn[0]); smp_wrap++;
+			vx_sample("wrap shape=%s c11w_free_right(root) deallocates %s, exactly as bintree_free_right", shape_str, a.s);
+			free(a.s);
+		}
+	}
+}
+static void wrap_shape(void)
+{
+	if (K == 0) { for (int op = OP_IT_IN; op <= OP_FREE; op++) run_wrap_case(op, -1); return; }
+	for (int s = 0; s < K; s++)
+		for (int op = 0; op <= OP_ACCESS; op++) run_wrap_case(op, s);
+}
+
 /* -------------------------------------------------------------------- main */
 
+static void *xmap(size_t n)
+{
+	void *p = mmap(NULL, n, PROT_READ | PROT_WRITE, MAP_PRIVATE | MAP_ANONYMOUS, -1, 0);
+	if (p == MAP_FAILED) { perror("c11: mmap"); _exit(3); }
+	return p;
+}
 static void setup_memory(void)
 {
 	poison_page = mmap(NULL, 4096, PROT_NONE, MAP_PRIVATE | MAP_ANONYMOUS, -1, 0);
 	if (poison_page == MAP_FAILED) { perror("mmap"); _exit(3); }
 	POISON = (bintree_node_t *)((uintptr_t)(poison_page + 0x100) | 1);	/* odd: reads as "not yet visited" */
+	memset(&poison_img, 0xDB, sizeof(poison_img));
+	poison_img.left = poison_img.right = POISON;
 	gregion = mmap(NULL, (2 * MAXG + 1) * 4096, PROT_NONE, MAP_PRIVATE | MAP_ANONYMOUS, -1, 0);
 	if (gregion == MAP_FAILED) { perror("mmap"); _exit(3); }
 	for (int i = 0; i < MAXG; i++) {
 		uint8_t *pg = gregion + (size_t)(2 * i + 1) * 4096;
 		mprotect(pg, 4096, PROT_READ | PROT_WRITE);
-		gnode[i] = (bintree_node_t *)(pg + 4096 - sizeof(bintree_node_t));	/* flush against the next (inaccessible) page */
+		gslot[i] = (bintree_node_t *)(pg + 4096 - NSZ);	/* flush against the next (inaccessible) page */
 	}
+	size_t smax = stride_of(LAY_A8) > stride_of(LAY_M2) ? stride_of(LAY_A8) : stride_of(LAY_M2);
+	arena_cap = 64 + (size_t)MAXN * smax;
+	arena_mem = xmap(arena_cap); image0 = xmap(arena_cap); scratch_img = xmap(arena_cap);
+	size_t a = sizeof(int32_t) * (MAXN + 8);
+	Lc = xmap(a); Rc = xmap(a); Par = xmap(a); Size = xmap(a); Dep = xmap(a); stk = xmap(2 * a);
+	slot_of = xmap(a); id_at = xmap(a); perm_cache = xmap(a); ref_seq = xmap(a);
+	trav = xmap(a); got_buf = xmap(a); dlog = xmap(a); pos_buf = xmap(a); lseq = xmap(a);
+	dcount = xmap(MAXN + 8); shape_pre = xmap(MAXN + 8);
+	lpool_cap = 4 * MAXN; lpool = xmap(sizeof(lnode_t) * (size_t)lpool_cap);
+	lsp = xmap(sizeof(lnode_t *) * MAXN); lel = xmap(sizeof(lnode_t *) * MAXN);
 }
-
-static int too_many(void) { return vx_viol_total > 3000 || n_hangs >= 3; }
+/* librfn's recursive traversals are the statement's yardstick, and on a spine they recurse once per node: give them a
+ * stack that holds 65 538 frames on every build (the limit is read by the kernel at exec time, hence the re-exec) */
+static void big_stack(char **argv)
+{
+	struct rlimit rl;
+	const rlim_t want = (rlim_t)1 << 30;
+	if (getrlimit(RLIMIT_STACK, &rl)) { stack_nodes_ok = 4096; return; }
+	if (rl.rlim_cur != RLIM_INFINITY && rl.rlim_cur < want && !getenv("C11_STACK_SET")) {
+		struct rlimit nl = rl;
+		nl.rlim_cur = (rl.rlim_max == RLIM_INFINITY || rl.rlim_max >= want) ? want : rl.rlim_max;
+		if (nl.rlim_cur > rl.rlim_cur && !setrlimit(RLIMIT_STACK, &nl)) {
+			setenv("C11_STACK_SET", "1", 1);
+			execv("/proc/self/exe", argv);
+			setrlimit(RLIMIT_STACK, &rl);
+		}
+	}
+	getrlimit(RLIMIT_STACK, &rl);
+	/* 1 KiB per level is several times what any of the builds needs */
+	stack_nodes_ok = rl.rlim_cur == RLIM_INFINITY ? (uint64_t)1 << 20 : (uint64_t)rl.rlim_cur / 1024;
+}
 
 int main(int argc, char **argv)
 {
+	big_stack(argv);
 	vx_init(argc, argv);
 	vx_install_handlers();
 	vx_watchdog(2.0);
@@ -680,23 +1224,38 @@ int main(int argc, char **argv)
 	for (int k = 1; k <= MAXK; k++) { CAT[k] = 0; for (int i = 0; i < k; i++) CAT[k] += CAT[i] * CAT[k - 1 - i]; }
 	vx_set_init(&distinct_set, 16); vx_set_init(&shape_set, 14);
 
-	int N, LMAX, KCOMMON = 7;
-	if (vx_thorough()) { N = 15; SUBK = 12; CK = 12; GN = 12; M2K = 13; LMAX = 32; }
-	else { N = 12; SUBK = 9; CK = 9; GN = 9; M2K = 10; LMAX = 12; }
+	int N, KCOMMON = 7, WK;
+	if (vx_thorough()) { N = 15; SUBK = 12; CK = 12; GN = 12; M2K = 13; PERMK = 13; REVK = 14; WK = 8; }
+	else { N = 12; SUBK = 9; CK = 9; GN = 9; M2K = 10; PERMK = 10; REVK = 11; WK = 6; }
+	/* deep family / list spines: every size from just above the exhaustive bound to 130 (no power of two needed to hit a
+	 * limit such as 48 or 100), then both sides of 2^8, 2^9, 1000, 2^10, 2^16 */
+	add_sizes(deep_sizes, &n_deep_sizes, 13, 130); add_sizes(list_lens, &n_list_lens, 1, 130);
+	{
+		static const int around[] = { 256, 512, 1024, 65536 };
+		for (unsigned i = 0; i < sizeof(around) / sizeof(around[0]); i++) {
+			if (around[i] == 1024) { add_sizes(deep_sizes, &n_deep_sizes, 999, 1001); add_sizes(list_lens, &n_list_lens, 999, 1001); }
+			add_sizes(deep_sizes, &n_deep_sizes, around[i] - 2, around[i] + 2); add_sizes(list_lens, &n_list_lens, around[i] - 2, around[i] + 2);
+		}
+	}
+	COST_ALL = 3000000; LIST_COST_ALL = 3000000;
+	COST_BIG = vx_thorough() ? (uint64_t)65540 * 65540 : COST_ALL;
+	LIST_COST_BIG = vx_thorough() ? (uint64_t)65540 * 65540 : LIST_COST_ALL;
 
 	char *rp = vx_read_replay();
 	if (rp) {
 		char pass[32] = "", lay[32] = "", shp[64] = "", op[32] = "", dir[32] = "", el[32] = "";
 		const char *f;
-		g_count = 1;
+		g_count = 1; g_replay = 1;
 		if ((f = vx_replay_field(rp, "pass"))) snprintf(pass, sizeof(pass), "%s", f);
 		if (!strcmp(pass, "list")) {
 			if ((f = vx_replay_field(rp, "dir"))) snprintf(dir, sizeof(dir), "%s", f);
 			if ((f = vx_replay_field(rp, "elems"))) snprintf(el, sizeof(el), "%s", f);
 			f = vx_replay_field(rp, "len");
 			int len = f ? atoi(f) : 0;
-			if (len < 1 || len > MAXLEN) { fprintf(stderr, "c11: bad replay (len)\n"); return 3; }
-			run_list_case(!strcmp(dir, "right"), len, !strcmp(el, "inner"));
+			f = vx_replay_field(rp, "place");
+			int place = f ? atoi(f) != 0 : 0;
+			if (len < 1 || len > MAXN - 8) { fprintf(stderr, "c11: bad replay (len)\n"); return 3; }
+			run_list_case(!strcmp(dir, "right"), len, !strcmp(el, "inner"), place);
 		} else {
 			if ((f = vx_replay_field(rp, "layout"))) snprintf(lay, sizeof(lay), "%s", f);
 			if ((f = vx_replay_field(rp, "shape"))) snprintf(shp, sizeof(shp), "%s", f);
@@ -704,33 +1263,34 @@ int main(int argc, char **argv)
 			f = vx_replay_field(rp, "sub"); int s = f ? atoi(f) : 0;
 			f = vx_replay_field(rp, "j"); int j = f ? atoi(f) : -1;
 			f = vx_replay_field(rp, "owner"); nested_owner = f ? atoi(f) : -1;
-			int o = -1; for (int i = 0; i < OP_N; i++) if (!strcmp(op, opname[i])) o = i;
-			if (parse_shape(shp) || o < 0 || s >= K || (K && s < 0) || (!strcmp(pass, "guard") && K > MAXG)) { fprintf(stderr, "c11: bad replay\n"); return 3; }
+			int o = -1; for (int i = 0; i <= OP_ACCESS; i++) if (!strcmp(op, opname[i])) o = i;
+			int ly = 0; for (int i = 0; i < NLAY * NPL; i++) if (!strcmp(lay, layname[i])) ly = i;
+			if (parse_shape(shp) || o < 0 || s >= K || (K && s < 0) || (!strcmp(pass, "guard") && K > MAXG) ||
+			    (!strcmp(pass, "wrap") && K > WMAXK)) { fprintf(stderr, "c11: bad replay\n"); return 3; }
 			if (!K) s = -1;
-			C.layout = !strcmp(lay, "m2") ? LAY_M2 : LAY_A8;
-			if (!strcmp(pass, "guard")) { C.pass = PASS_GUARD; build_guard(); }
-			else { C.pass = PASS_MAIN; build_arena(C.layout); }
-			run_case(o, s, j);
+			C.layout = ly;
+			if (!strcmp(pass, "wrap")) {
+				if (!c11w_api.present || (o >= OP_FREE_L && s < 0)) { fprintf(stderr, "c11: bad replay (wrap)\n"); return 3; }
+				run_wrap_case(o, s);
+			} else if (o >= OP_N) { fprintf(stderr, "c11: bad replay (op)\n"); return 3; }
+			else if (!strcmp(pass, "guard")) { C.pass = PASS_GUARD; set_placement(ly % NPL); build_guard(); run_case(o, s, j); }
+			else {
+				C.pass = !strcmp(pass, "deep") ? PASS_DEEP : PASS_MAIN;
+				build_arena(ly / NPL, ly % NPL);
+				run_case(o, s, j);
+			}
 		}
 		vx_finish();
 		return 0;
 	}
 
-	/* list spines: tiny, so EVERY worker runs all of them (same first failing case everywhere); each is counted by one */
+	int stopped = 0, k;
 	uint64_t part = 0;
-	for (int len = 1; len <= LMAX; len++)
-		for (int dir = 0; dir < 2; dir++)
-			for (int elem = 0; elem < 2; elem++) {
-				g_count = vx_mine(part++);
-				if (too_many()) continue;
-				run_list_case(dir, len, elem);
-				if (g_count) vx_count("list_cases", 1);
-			}
-	vx_max("list_max_spine_length", (uint64_t)LMAX);
+	list_pass(&part);
+	if (vx_deadline_passed()) stopped = 1;
 
 	/* all shapes with k nodes, k = 0..N. Shapes with k <= KCOMMON are run by EVERY worker (so that the
 	 * first failing case, which names the signature, is the same in all of them) but counted by one. */
-	int stopped = 0, k;
 	const uint64_t CHUNK = 64;
 	for (k = 0; k <= N && !stopped; k++) {
 		char cname[32]; snprintf(cname, sizeof(cname), "shapes_n%02d", k);
@@ -739,7 +1299,7 @@ int main(int argc, char **argv)
 			if (!mine && k > KCOMMON) continue;
 			if (vx_deadline_passed() || too_many() || vx_too_many_violations()) { stopped = 1; break; }
 			for (uint64_t r = r0; r < r0 + CHUNK && r < CAT[k]; r++) {
-				nid = 0; K = k; unrank(k, r, -1); make_shape_str();
+				nid = 0; K = k; unrank(k, r, -1); shape_finish(NULL);
 				g_count = mine;
 				if (mine) {
 					vx_hasher h; vx_h_init(&h); vx_h_bytes(&h, shape_str, strlen(shape_str));
@@ -750,18 +1310,40 @@ int main(int argc, char **argv)
 			}
 		}
 	}
+	int n_done = stopped ? (k - 2 < 0 ? 0 : k - 2) : N;
+	if (!stopped) stopped = deep_pass(0);
+	/* the typed wrappers: tiny, EVERY worker runs all of it, each shape is counted by one. Last: a library fault shows on both
+	 * sides of this differential alike and belongs to the passes above */
+	if (c11w_api.present && !stopped) {
+		for (k = 0; k <= WK; k++)
+			for (uint64_t r = 0; r < CAT[k] && !too_many(); r++) {
+				nid = 0; K = k; unrank(k, r, -1); shape_finish(NULL);
+				g_count = vx_mine(part++);
+				CNT("wrapper_shapes", 1);
+				wrap_shape();
+			}
+		vx_max("bound_wrapper_differential", (uint64_t)WK);
+	} else if (!c11w_api.present)
+		vx_and("exhaustive", 0);	/* the driver says why: the wrapper unit did not compile */
+	if (too_many()) stopped = 1;
+
 	if (stopped) {
 		if (too_many() || vx_too_many_violations()) vx_note("enumeration stopped early: too many violating cases / hangs");
-		else vx_note("deadline reached: enumeration stopped inside n=%d", k - 1);
+		else vx_note("deadline reached: enumeration stopped (all shapes up to n=%d were done)", n_done);
 	}
 	vx_and("exhaustive", !stopped);
-	vx_min("n_nodes_fully_enumerated", (uint64_t)(stopped ? (k - 2 < 0 ? 0 : k - 2) : N));
+	vx_min("n_nodes_fully_enumerated", (uint64_t)n_done);
 	vx_max("n_nodes_bound", (uint64_t)N);
 	{ uint64_t e = 0; for (int i = 0; i <= N; i++) e += CAT[i]; vx_max("shapes_expected_catalan_sum", e); }
 	vx_max("bound_every_node_as_root", (uint64_t)SUBK);
 	vx_max("bound_complete_after_j", (uint64_t)CK);
 	vx_max("bound_guard_page_pass", (uint64_t)GN);
 	vx_max("bound_underaligned_layout", (uint64_t)M2K);
+	vx_max("bound_permuted_placement", (uint64_t)PERMK);
+	vx_max("bound_reversed_placement", (uint64_t)REVK);
+	vx_max("node_size_bytes", (uint64_t)NSZ);
 	vx_finish();
 	return 0;
 }
+
+#endif /* harness proper */
